@@ -1047,7 +1047,44 @@ class _Canon(ast.NodeTransformer):
         return node
 
 
+def _inline_return_temps(tree):
+    """`x = E` immediately followed by `return x` is read as `return E`."""
+    for node in ast.walk(tree):
+        for fld in ('body', 'orelse', 'finalbody'):
+            blk = getattr(node, fld, None)
+            if not (isinstance(blk, list) and blk and isinstance(
+                    blk[0], ast.stmt)):
+                continue
+            i = 0
+            while i + 1 < len(blk):
+                a, b = blk[i], blk[i + 1]
+                if isinstance(a, ast.Assign) and len(a.targets) == 1 and \
+                        isinstance(a.targets[0], ast.Name) and isinstance(
+                        b, ast.Return) and isinstance(b.value, ast.Name) \
+                        and b.value.id == a.targets[0].id:
+                    blk[i:i + 2] = [ast.copy_location(
+                        ast.Return(value=a.value), a)]
+                    continue
+                i += 1
+        if isinstance(node, ast.Try):
+            for h in node.handlers:
+                blk = h.body
+                i = 0
+                while i + 1 < len(blk):
+                    a, b = blk[i], blk[i + 1]
+                    if isinstance(a, ast.Assign) and len(a.targets) == 1 \
+                            and isinstance(a.targets[0], ast.Name) and \
+                            isinstance(b, ast.Return) and isinstance(
+                            b.value, ast.Name) and \
+                            b.value.id == a.targets[0].id:
+                        blk[i:i + 2] = [ast.copy_location(
+                            ast.Return(value=a.value), a)]
+                        continue
+                    i += 1
+
+
 def canonical_forms(tree):
+    _inline_return_temps(tree)
     new = _Canon().visit(tree)
     ast.fix_missing_locations(new)
     return new
